@@ -82,6 +82,7 @@ def run(ck, tier):
     # converse: keys the schema lists are accepted
     names = exp['names']
     seen_accept = set()
+    unclean = []
     for x in selftest:
         bi = int(x['base'].split()[0][1:]) - 1
         for d in x['diags']:
@@ -95,7 +96,16 @@ def run(ck, tier):
                                  {'kind': 'accept', 'b': bi + 1, 'ops': [], 'refops': [], 'opts': x['layout'], 'key_path': kp,
                                   'msg': d['msg']})
             else:
-                raise Inconclusive('base workflow %s does not lint clean (layout %s): %s' % (x['base'], x['layout'], doclib.show(d)))
+                unclean.append('%s (layout %s): %s' % (x['base'], x['layout'], doclib.show(d)))
+    if seen_accept:
+        # the bases are the references of every other vector: nothing more can be judged until the keys are accepted again
+        ck.note('mutation vectors not evaluated because %d listed keys are rejected by the parser' % len(seen_accept))
+        ck.cov['rule'] = 'converse check only: every key the schema lists must be accepted in the base workflows'
+        ck.cov['evaluations'] += len(selftest)
+        ck.cov['distinct_nontrivial'] += len(selftest)
+        return
+    if unclean:
+        raise Inconclusive('base workflow does not lint clean: ' + unclean[0])
     vecs = doclib.generate(ck, 'DocMutation_c13.cfg', 'DocMutation C13: every mapping of every base x InsertKey/DupKey/DropKey x sensors')
     vecs.sort(key=lambda v: json.dumps([v['h']['b'], v['h']['path'], v['h']['mut'], v['where'], v['key'], v['case'], v['h']['sensors']]))
     nl = len(doclib.LAYOUTS)
@@ -119,7 +129,7 @@ def run(ck, tier):
             raise Inconclusive('vector could not be materialised (%s %s): %s\n%s' % (site, v['h']['mut'], ro['err'] or mo['err'], mo['src'] or ro['src']))
         if any(d['cls'] == 'yaml-error' for d in mo['diags'] + ro['diags']):
             raise Inconclusive('generated document is not YAML (%s):\n%s' % (site, mo['src']))
-        if any(d['kind'] == 'syntax-check' for d in ro['diags']) and not seen_accept:
+        if any(d['kind'] == 'syntax-check' for d in ro['diags']):
             raise Inconclusive('reference document of %s has syntax-check diagnostics: %s' % (site, doclib.show(ro['diags'][0])))
         other = [d for d in mo['diags'] if d['kind'] == 'syntax-check' and d['cls'] == 'syntax-other']
         if other:
@@ -146,6 +156,16 @@ def run(ck, tier):
                                          for x in lst})[:40]})
     for d, n in sorted(drifts.items())[:12]:
         ck.note('model drift (%d vectors): %s' % (n, d))
+    if tier == 'thorough':
+        # binding self-test: the reference document judged as if it were the mutated one must be rejected
+        v0 = next(v for v in vecs if v['h']['mut'] == 'InsertKey' and v['h']['sensors'])
+        o = doclib.run(sd, schema_path, [{'b': v0['h']['b'], 'ops': v0['refops'], 'opts': {}, 'want': []}], 'selftest')[0]
+        problems, _ = judge(v0, o, o)
+        lost = judge(v0, dict(o, diags=[]), o)[0]
+        good = any(a == 'report' for a, _ in problems) and any(a == 'siblings' for a, _ in lost)
+        ck.cov['binding_selftest'] = 'rejected' if good else 'NOT rejected'
+        if not good:
+            raise Inconclusive('binding self-test failed: an unreported key / vanished sibling diagnostics were not noticed')
     ck.cov['evaluations'] += len(runs.items)
     ck.cov['traces_validated_against_impl'] += nvec
     ck.cov['distinct_nontrivial'] += nvec
